@@ -1,6 +1,8 @@
 package c20
 
 import (
+	"fmt"
+
 	"github.com/gdamore/tcell/v2/views"
 	"pgregory.net/rapid"
 
@@ -21,6 +23,10 @@ type VOp struct {
 	R      rune   `json:"r,omitempty"`
 	St     int    `json:"st,omitempty"`
 	Comb   bool   `json:"comb,omitempty"`
+	// Rel (set only): 0 = X,Y are content coordinates; 1 = relative to the upper
+	// left cell of the visible window as reported by GetVisible() before the call;
+	// 2 = relative to its lower right cell
+	Rel int `json:"rel,omitempty"`
 }
 
 // VCase: parent size, NewViewPort arguments, history.
@@ -85,7 +91,7 @@ func runV(c VCase) (vResult, error) {
 	grown := false
 
 	// geometry established by NewViewPort / Resize(x,y,w,h)
-	checkGeom := func(where string, x, y, w, h int) error {
+	checkGeom := func(where fmt.Stringer, x, y, w, h int) error {
 		o := observeV(vp)
 		if x < 0 || y < 0 {
 			class("resize-negative-origin")
@@ -131,7 +137,7 @@ func runV(c VCase) (vResult, error) {
 	}
 
 	// every call that reached the parent lies inside the port's rectangle (and the parent)
-	checkCalls := func(where string, o vObs) error {
+	checkCalls := func(where fmt.Stringer, o vObs) error {
 		for _, pc := range par.calls {
 			if !inRect(pc.X, pc.Y, o.px1, o.py1, o.px2, o.py2) {
 				return errf("%s: parent received %v outside the ViewPort's rectangle (%d,%d)-(%d,%d)", where, pc, o.px1, o.py1, o.px2, o.py2)
@@ -143,7 +149,7 @@ func runV(c VCase) (vResult, error) {
 		return nil
 	}
 
-	general := func(where string) error {
+	general := func(where fmt.Stringer) error {
 		o := observeV(vp)
 		if o.vx2-o.vx1+1 != o.sw || o.vy2-o.vy1+1 != o.sh {
 			return errf("%s: GetVisible() (%d,%d)-(%d,%d) does not span Size() %dx%d", where, o.vx1, o.vy1, o.vx2, o.vy2, o.sw, o.sh)
@@ -157,16 +163,21 @@ func runV(c VCase) (vResult, error) {
 		return nil
 	}
 
-	if err := checkGeom("NewViewPort", c.X, c.Y, c.W, c.H); err != nil {
+	if err := checkGeom(strWhere("NewViewPort"), c.X, c.Y, c.W, c.H); err != nil {
 		return res, err
 	}
-	if err := general("NewViewPort"); err != nil {
+	if err := general(strWhere("NewViewPort")); err != nil {
 		return res, err
 	}
 
 	for i, op := range c.Ops {
-		where := errfWhere(i, op)
 		pre := observeV(vp)
+		if op.Kind == "set" && op.Rel == 1 {
+			op.X, op.Y = pre.vx1+op.X, pre.vy1+op.Y
+		} else if op.Kind == "set" && op.Rel == 2 {
+			op.X, op.Y = pre.vx2+op.X, pre.vy2+op.Y
+		}
+		where := vWhere{i, op}
 		par.reset()
 		switch op.Kind {
 		case "resize":
@@ -336,7 +347,13 @@ func runV(c VCase) (vResult, error) {
 	return res, nil
 }
 
-func errfWhere(i int, op VOp) string {
+type vWhere struct {
+	i  int
+	op VOp
+}
+
+func (w vWhere) String() string {
+	i, op := w.i, w.op
 	switch op.Kind {
 	case "resize":
 		return sprintf("step %d Resize(%d,%d,%d,%d)", i, op.X, op.Y, op.W, op.H)
@@ -359,6 +376,10 @@ func errfWhere(i int, op VOp) string {
 	}
 	return sprintf("step %d %s", i, op.Kind)
 }
+
+type strWhere string
+
+func (s strWhere) String() string { return string(s) }
 
 // ---- memo: Prop, NonTrivial and Classes are called in a row on the same case
 
@@ -389,9 +410,10 @@ func classesV(c VCase) []string { return resultV(c).classes }
 // ---- generator
 
 func genVCase(t *rapid.T) VCase {
-	size := rapid.OneOf(rapid.IntRange(0, 40), rapid.IntRange(1, 12))
+	size := rapid.OneOf(rapid.IntRange(0, 40), rapid.IntRange(4, 40), rapid.IntRange(10, 40))
+	near := rapid.OneOf(rapid.IntRange(-2, 3), rapid.IntRange(-2, 3), rapid.IntRange(0, 40))
 	coord := rapid.OneOf(rapid.IntRange(-10, 60), rapid.IntRange(0, 14), rapid.IntRange(-2, 4))
-	origin := rapid.OneOf(rapid.IntRange(0, 10), rapid.IntRange(0, 40), rapid.IntRange(-10, 60))
+	origin := rapid.OneOf(rapid.IntRange(0, 3), rapid.IntRange(0, 3), rapid.IntRange(0, 10), rapid.IntRange(0, 40), rapid.IntRange(-10, 60))
 	extent := rapid.OneOf(rapid.IntRange(0, 60), rapid.IntRange(0, 12), rapid.Just(-1))
 	csize := rapid.OneOf(rapid.IntRange(0, 60), rapid.IntRange(0, 12))
 	amount := rapid.OneOf(rapid.IntRange(-10, 60), rapid.IntRange(0, 5))
@@ -400,8 +422,12 @@ func genVCase(t *rapid.T) VCase {
 	op := rapid.Custom(func(t *rapid.T) VOp {
 		k := rapid.IntRange(0, 99).Draw(t, "kind")
 		switch {
-		case k < 30:
+		case k < 12:
 			return VOp{Kind: "set", X: coord.Draw(t, "sx"), Y: coord.Draw(t, "sy"), R: runes.Draw(t, "r"), St: rapid.IntRange(0, 2).Draw(t, "st"), Comb: rapid.IntRange(0, 5).Draw(t, "comb") == 0}
+		case k < 22:
+			return VOp{Kind: "set", Rel: 1, X: near.Draw(t, "sx"), Y: near.Draw(t, "sy"), R: runes.Draw(t, "r"), St: rapid.IntRange(0, 2).Draw(t, "st")}
+		case k < 30:
+			return VOp{Kind: "set", Rel: 2, X: -near.Draw(t, "sx"), Y: -near.Draw(t, "sy"), R: runes.Draw(t, "r"), St: rapid.IntRange(0, 2).Draw(t, "st")}
 		case k < 50:
 			return VOp{Kind: rapid.SampledFrom([]string{"left", "right", "up", "down"}).Draw(t, "dir"), N: amount.Draw(t, "amt")}
 		case k < 58:
@@ -433,6 +459,9 @@ func genVCase(t *rapid.T) VCase {
 		X: origin.Draw(t, "x"), Y: origin.Draw(t, "y"),
 		W: extent.Draw(t, "w"), H: extent.Draw(t, "h"),
 	}
-	c.Ops = rapid.SliceOfN(op, 1, pbt.Pick(30, 60)).Draw(t, "ops")
+	// a drawn minimum length keeps histories long; shrinking lowers it and then
+	// deletes steps one by one
+	max := pbt.Pick(30, 60)
+	c.Ops = rapid.SliceOfN(op, rapid.IntRange(1, max).Draw(t, "minlen"), max).Draw(t, "ops")
 	return c
 }
